@@ -572,6 +572,11 @@ func (l *Legacy) OpenIn(t Target, connID string) error {
 	// An accepting gateway answers at once. A refusing one (no hijack) first tries to read the rest of the
 	// chunked request body, so end the body if nothing has arrived after a short while.
 	endedEarly := false
+	// first let the gateway read the request: a terminating chunk that reaches its buffered reader together with the
+	// request head would end the body of an accepted RDG_IN_DATA before its first packet (busy machine)
+	if raw := rawTCP(c); raw != nil {
+		procnet.WaitPeerDrained(raw, 30*time.Second)
+	}
 	c.SetReadDeadline(time.Now().Add(300 * time.Millisecond))
 	if _, perr := br.Peek(1); perr != nil {
 		if ne, ok := perr.(net.Error); !ok || !ne.Timeout() {
